@@ -167,7 +167,7 @@ func (x *c03rCase) open(class string, start int64, gor bool) *c03rReader {
 			rd.r = r
 			return rd
 		}
-		if try < 20000 && pkgErrors.Cause(err) == ErrSegmentClosed && (try < 2000 || x.passRunning()) {
+		if try < 50000 && pkgErrors.Cause(err) == ErrSegmentClosed && (try < 30000 || x.passRunning()) {
 			// a pass of the cleaner loop is deleting the segment right now
 			// (deleted segments stay listed until the pass installs its result)
 			x.st.transientOpen.Add(1)
@@ -199,7 +199,7 @@ func (x *c03rCase) readErr(rd *c03rReader, err error) bool {
 				return true
 			}
 			err = e
-			if pkgErrors.Cause(e) != ErrSegmentClosed || (try > 2000 && !x.passRunning()) {
+			if pkgErrors.Cause(e) != ErrSegmentClosed || (try > 30000 && !x.passRunning()) {
 				// (a pass of the log's own cleaner loop is not visible to passRunning: a closed
 				// segment met while opening is transient; only a persistent one is judged)
 				break
